@@ -712,3 +712,442 @@ Proof.
   intros Hp Hok. apply (run_agree fx ops empty_state []); auto.
   split; [apply wf_nil|]. intros t _. rewrite find_val_nil_l. reflexivity.
 Qed.
+
+(* ------------------------------------------------------------------------------------------------ abstraction *)
+Lemma lookup_app A B t : lookup (A ++ B) t = match lookup A t with Some v => Some v | None => lookup B t end.
+Proof.
+  induction A as [|[u w] A IH]; cbn [app lookup]; auto. destruct (seqb u t); auto.
+Qed.
+Lemma lookup_map_cons x A t :
+  lookup (map (fun p => (x :: fst p, snd p)) A) t =
+  match t with
+  | z :: t' => if z =? x then lookup A t' else None
+  | [] => None
+  end.
+Proof.
+  induction A as [|[u w] A IH]; cbn [map lookup fst snd].
+  - destruct t as [|z t']; auto. destruct (z =? x); auto.
+  - destruct t as [|z t']; cbn [seqb]; auto.
+    rewrite IH. rewrite Z.eqb_sym. destruct (z =? x) eqn:E; cbn [andb]; auto.
+Qed.
+Lemma abs_cons x w c r :
+  abs ((x, w, c) :: r) = (([x], w) :: map (fun p => (x :: fst p, snd p)) (abs_t c)) ++ abs r.
+Proof. reflexivity. Qed.
+Lemma find_val_cons_lt z t x w c r : z < x -> find_val (z :: t) ((x, w, c) :: r) = None.
+Proof.
+  intro H. unfold find_val. assert (get z ((x, w, c) :: r) = None) as Hg.
+  { cbn [get]. zcmp z x; auto; lia. }
+  destruct t; [rewrite find_one, Hg | rewrite find_cons2, Hg]; reflexivity.
+Qed.
+Lemma find_val_cons_gt z t x w c r : x < z -> find_val (z :: t) ((x, w, c) :: r) = find_val (z :: t) r.
+Proof.
+  intro H. unfold find_val. f_equal. apply find_head. cbn [get]. zcmp z x; auto; lia.
+Qed.
+Lemma find_val_cons_eq_one x w c r : find_val [x] ((x, w, c) :: r) = Some w.
+Proof. rewrite find_val_one. cbn [get]. rewrite Z.compare_refl. reflexivity. Qed.
+Lemma find_val_cons_eq_deep x y t w c r : find_val (x :: y :: t) ((x, w, Node c) :: r) = find_val (y :: t) c.
+Proof. rewrite find_val_deep. cbn [get]. rewrite Z.compare_refl. reflexivity. Qed.
+
+Theorem find_abs : forall l, wf l -> forall t, lookup (abs l) t = find_val t l.
+Proof.
+  apply (sibs_trie_ind (fun t => wf_t t -> forall s, lookup (abs_t t) s = find_val s (kids t))
+                       (fun l => wf l -> forall s, lookup (abs l) s = find_val s l)).
+  - intros l H Hw s. cbn [kids]. apply H. rewrite <- wf_t_node. exact Hw.
+  - intros _ s. cbn. rewrite find_val_nil_l. reflexivity.
+  - intros x w c r IHc IHr Hwf s. apply wf_cons in Hwf as (Hlb & Hc & Hr).
+    rewrite abs_cons, lookup_app. cbn [lookup]. rewrite lookup_map_cons.
+    destruct s as [|z t'].
+    + cbn [seqb]. rewrite IHr by auto. reflexivity.
+    + destruct (Z.compare_spec z x) as [E|E|E].
+      * subst z. destruct t' as [|z' t''].
+        -- cbn [seqb]. rewrite Z.eqb_refl. cbn [andb]. rewrite find_val_cons_eq_one. reflexivity.
+        -- assert (seqb [x] (x :: z' :: t'') = false) as -> by (cbn [seqb]; rewrite Z.eqb_refl; reflexivity).
+           rewrite Z.eqb_refl. rewrite IHc by auto. destruct c as [c0]. cbn [kids].
+           rewrite find_val_cons_eq_deep.
+           destruct (find_val (z' :: t'') c0) eqn:Ef; auto.
+           (* absent below x: also absent in the later siblings, whose labels are larger *)
+           rewrite IHr by auto. unfold find_val. rewrite find_cons2, lb_sibs_get_none by auto. reflexivity.
+      * assert (seqb [x] (z :: t') = false) as ->.
+        { cbn [seqb]. destruct (x =? z) eqn:E2; [apply Z.eqb_eq in E2; lia | reflexivity]. }
+        assert (z =? x = false) as -> by (apply Z.eqb_neq; lia).
+        rewrite find_val_cons_lt by auto. rewrite IHr by auto.
+        unfold find_val. assert (get z r = None) as Hg by (apply lb_sibs_get_lt with (x := x); auto; lia).
+        destruct t'; [rewrite find_one, Hg | rewrite find_cons2, Hg]; reflexivity.
+      * assert (seqb [x] (z :: t') = false) as ->.
+        { cbn [seqb]. destruct (x =? z) eqn:E2; [apply Z.eqb_eq in E2; lia | reflexivity]. }
+        assert (z =? x = false) as -> by (apply Z.eqb_neq; lia).
+        rewrite find_val_cons_gt by auto. apply IHr; auto.
+Qed.
+
+(* the abstract complex of the tree after a history = the specification run, as finite maps *)
+Theorem history_refines_abs fx ops :
+  forallb proved_op ops = true -> ok_history ops = true ->
+  forall t, t <> [] -> lookup (abs (tree (run fx ops))) t = lookup (spec_run ops) t.
+Proof.
+  intros Hp Hok t Ht. destruct (history_refines_proved fx ops Hp Hok) as [Hwf H].
+  rewrite find_abs by auto. apply H; auto.
+Qed.
+
+(* ------------------------------------------------------------------------------------------------ prune_above_filtration *)
+Definition prune_sibs (f : V) (l : sibs) : sibs := kids (prune_f f (Node l)).
+Lemma prune_sibs_nil f : prune_sibs f [] = [].
+Proof. reflexivity. Qed.
+Lemma prune_sibs_cons f x w c r :
+  prune_sibs f ((x, w, c) :: r) = if f <? w then prune_sibs f r else (x, w, prune_f f c) :: prune_sibs f r.
+Proof. unfold prune_sibs. cbn. destruct (f <? w); reflexivity. Qed.
+Lemma prune_f_node f c : prune_f f (Node c) = Node (prune_sibs f c).
+Proof. reflexivity. Qed.
+Global Opaque prune_sibs.
+
+Lemma lb_sibs_prune f y r : lb_sibs y r -> lb_sibs y (prune_sibs f r).
+Proof.
+  induction r as [|[[x w] c] r IH]; [rewrite prune_sibs_nil; auto|].
+  rewrite prune_sibs_cons. cbn [lb_sibs]. intros [H1 H2]. destruct (f <? w); cbn [lb_sibs]; auto.
+Qed.
+Lemma wf_prune f : forall l, wf l -> wf (prune_sibs f l).
+Proof.
+  apply (sibs_trie_ind (fun t => wf_t t -> wf_t (prune_f f t)) (fun l => wf l -> wf (prune_sibs f l))).
+  - intros l H Hw. rewrite prune_f_node, wf_t_node. apply H. rewrite <- wf_t_node; auto.
+  - intros _. rewrite prune_sibs_nil. apply wf_nil.
+  - intros x w c r IHc IHr Hwf. apply wf_cons in Hwf as (Hlb & Hc & Hr). rewrite prune_sibs_cons.
+    destruct (f <? w); auto. apply wf_cons. split; [|split]; auto. apply lb_sibs_prune; auto.
+Qed.
+Lemma get_prune f x : forall l, wf l ->
+  get x (prune_sibs f l) = match get x l with Some (w, c) => if f <? w then None else Some (w, prune_f f c) | None => None end.
+Proof.
+  induction l as [|[[y w] c] r IH]; intro Hwf; [rewrite prune_sibs_nil; reflexivity|].
+  apply wf_cons in Hwf as (Hlb & Hc & Hr). rewrite prune_sibs_cons. cbn [get].
+  destruct (f <? w) eqn:Ef.
+  - zcmp x y.
+    + subst. rewrite Ef. apply lb_sibs_get_none. apply lb_sibs_prune; auto.
+    + apply lb_sibs_get_lt with (x := y); [apply lb_sibs_prune; auto | lia].
+    + apply IH; auto.
+  - cbn [get]. zcmp x y; auto. subst. rewrite Ef. reflexivity.
+Qed.
+(* every node on the path of t (t included) that exists has a value <= f *)
+Fixpoint path_le (f : V) (t : simplex) (l : sibs) : bool :=
+  match t with
+  | [] => true
+  | x :: t' => match get x l with
+               | None => true
+               | Some (w, Node c) => negb (f <? w) && path_le f t' c
+               end
+  end.
+Lemma path_le_cons f x t' l :
+  path_le f (x :: t') l = match get x l with None => true | Some (w, Node c) => negb (f <? w) && path_le f t' c end.
+Proof. reflexivity. Qed.
+Theorem find_prune f : forall t l, wf l -> t <> [] ->
+  find_val t (prune_sibs f l) = if path_le f t l then find_val t l else None.
+Proof.
+  induction t as [|x [|y t'] IH]; intros l Hwf Ht; [congruence| |].
+  - rewrite !find_val_one, get_prune by auto. rewrite path_le_cons.
+    destruct (get x l) as [[w [c]]|]; auto. destruct (f <? w); reflexivity.
+  - rewrite !find_val_deep, get_prune by auto. rewrite path_le_cons.
+    destruct (get x l) as [[w [c]]|] eqn:E; auto.
+    assert (Hc : wf c) by (rewrite <- wf_t_node; eapply wf_get; eauto).
+    destruct (f <? w); cbn [negb andb]; auto.
+    rewrite prune_f_node. apply IH; auto; congruence.
+Qed.
+Lemma path_le_false f : forall t l w, find_val t l = Some w -> f < w -> path_le f t l = false.
+Proof.
+  induction t as [|x [|y t'] IH]; intros l w Hf Hlt; [discriminate| |].
+  - rewrite find_val_one in Hf. rewrite path_le_cons. destruct (get x l) as [[w' [c]]|]; [|discriminate].
+    cbn in Hf. inversion Hf; subst. assert (f <? w = true) as -> by lia. reflexivity.
+  - rewrite find_val_deep in Hf. rewrite path_le_cons. destruct (get x l) as [[w' [c]]|]; [|discriminate].
+    rewrite (IH c w) by auto. apply andb_false_r.
+Qed.
+Lemma path_le_true f : forall t l,
+  (forall p w, p <> [] -> prefixb p t = true -> find_val p l = Some w -> w <= f) -> path_le f t l = true.
+Proof.
+  induction t as [|x t' IH]; intros l H; auto.
+  rewrite path_le_cons. destruct (get x l) as [[w [c]]|] eqn:E; auto.
+  apply andb_true_iff; split.
+  - assert (w <= f); [|lia]. apply (H [x] w); [congruence | cbn; rewrite Z.eqb_refl; auto |].
+    rewrite find_val_one, E. reflexivity.
+  - apply IH. intros p w' Hp Hpre Hf. apply (H (x :: p) w'); [congruence | cbn; rewrite Z.eqb_refl; auto |].
+    destruct p as [|z p']; [congruence|]. rewrite find_val_deep, E. exact Hf.
+Qed.
+
+Lemma step_agree_prune_f fx st K f :
+  agree (tree st) K -> good K = true -> agree (tree (step fx st (OPruneF f))) (spec_step K (OPruneF f)).
+Proof.
+  intros [Hwf Ha] Hg. cbn [step spec_step tree]. change (kids (prune_f f (Node (tree st)))) with (prune_sibs f (tree st)).
+  split; [apply wf_prune; auto|]. intros t Ht.
+  rewrite find_prune, spec_prune_filt_lookup by auto. rewrite <- Ha by auto.
+  destruct (find_val t (tree st)) as [w|] eqn:E; [|destruct (path_le f t (tree st)); reflexivity].
+  destruct (f <? w) eqn:Ef.
+  - rewrite (path_le_false f t _ w) by (auto; lia). reflexivity.
+  - rewrite path_le_true; auto. intros p w' Hp Hpre Hfp.
+    assert (w' <= w); [|lia].
+    rewrite Ha in E, Hfp by auto. eapply good_mono; eauto. apply prefixb_subseq; auto.
+Qed.
+
+(* ------------------------------------------------------------------------------------------------ prune_above_dimension *)
+Definition cut (k : nat) (c : trie) : trie := match k with O => leaf | S k' => trunc c k' end.
+Definition trunc_sibs (l : sibs) (k : nat) : sibs := map (fun e => let '(x, w, c) := e in (x, w, cut k c)) l.
+Lemma trunc_node l k : trunc (Node l) k = Node (trunc_sibs l k).
+Proof. destruct k; reflexivity. Qed.
+Lemma get_trunc x k : forall l, get x (trunc_sibs l k) = option_map (fun p => (fst p, cut k (snd p))) (get x l).
+Proof.
+  induction l as [|[[y w] c] r IH]; cbn [trunc_sibs map get]; auto.
+  zcmp x y; auto.
+Qed.
+Lemma lb_sibs_trunc y k r : lb_sibs y r -> lb_sibs y (trunc_sibs r k).
+Proof.
+  induction r as [|[[x w] c] r IH]; cbn [trunc_sibs map lb_sibs]; auto.
+  intros [H1 H2]. split; auto.
+Qed.
+Lemma wf_trunc : forall l, wf l -> forall k, wf (trunc_sibs l k).
+Proof.
+  apply (sibs_trie_ind (fun t => wf_t t -> forall k, wf_t (trunc t k)) (fun l => wf l -> forall k, wf (trunc_sibs l k))).
+  - intros l H Hw k. rewrite trunc_node, wf_t_node. apply H. rewrite <- wf_t_node; auto.
+  - intros _ k. apply wf_nil.
+  - intros x w c r IHc IHr Hwf k. apply wf_cons in Hwf as (Hlb & Hc & Hr).
+    cbn [trunc_sibs map]. apply wf_cons. split; [|split].
+    + apply lb_sibs_trunc; auto.
+    + destruct k; cbn [cut]; [exact I | apply IHc; auto].
+    + apply IHr; auto.
+Qed.
+Theorem find_trunc : forall t l k, t <> [] ->
+  find_val t (trunc_sibs l k) = if (length t <=? S k)%nat then find_val t l else None.
+Proof.
+  induction t as [|x [|y t'] IH]; intros l k Ht; [congruence| |].
+  - rewrite !find_val_one, get_trunc. cbn [length Nat.leb]. destruct (get x l) as [[w c]|]; reflexivity.
+  - rewrite !find_val_deep, get_trunc.
+    destruct (get x l) as [[w [c]]|]; cbn [option_map fst snd]; [|destruct (_ <=? _)%nat; reflexivity].
+    destruct k as [|k']; cbn [cut].
+    + cbn [leaf]. rewrite find_val_nil_l. reflexivity.
+    + rewrite trunc_node. rewrite IH by congruence. reflexivity.
+Qed.
+
+Lemma size_node_cons x w c r : size_t (Node ((x, w, c) :: r)) = 1 + size_t c + size_t (Node r).
+Proof. reflexivity. Qed.
+Lemma size_nonneg : forall t, 0 <= size_t t.
+Proof.
+  apply (trie_sibs_ind (fun t => 0 <= size_t t) (fun l => 0 <= size_t (Node l))); auto.
+  - cbn; lia.
+  - intros x w c r Hc Hr. rewrite size_node_cons. lia.
+Qed.
+Lemma size_zero_leaf t : size_t t = 0 -> t = leaf.
+Proof.
+  destruct t as [[|[[x w] c] r]]; auto. rewrite size_node_cons.
+  pose proof (size_nonneg c). pose proof (size_nonneg (Node r)). lia.
+Qed.
+Lemma trunc_size : forall l k,
+  size_t (Node (trunc_sibs l k)) <= size_t (Node l) /\
+  (size_t (Node (trunc_sibs l k)) = size_t (Node l) -> trunc_sibs l k = l).
+Proof.
+  apply (sibs_trie_ind (fun t => forall k, size_t (trunc t k) <= size_t t /\ (size_t (trunc t k) = size_t t -> trunc t k = t))
+                       (fun l => forall k, size_t (Node (trunc_sibs l k)) <= size_t (Node l) /\
+                                           (size_t (Node (trunc_sibs l k)) = size_t (Node l) -> trunc_sibs l k = l))).
+  - intros l H k. rewrite trunc_node. destruct (H k) as [H1 H2]. split; auto. intro E. f_equal. auto.
+  - intros k. split; auto. cbn; lia.
+  - intros x w c r IHc IHr k. cbn [trunc_sibs map]. fold (trunc_sibs r k). rewrite !size_node_cons.
+    destruct (IHr k) as [Hr1 Hr2].
+    assert (Hc : size_t (cut k c) <= size_t c /\ (size_t (cut k c) = size_t c -> cut k c = c)).
+    { destruct k as [|k']; cbn [cut].
+      - split; [cbn; apply size_nonneg|]. intro E. symmetry. apply size_zero_leaf. cbn in E. lia.
+      - apply IHc. }
+    destruct Hc as [Hc1 Hc2]. split; [lia|]. intro E.
+    rewrite Hc2 by lia. rewrite Hr2 by lia. reflexivity.
+Qed.
+
+(* the cached dimension bounds the dimension of every stored simplex *)
+Definition ub_valid (st : state) : Prop :=
+  forall t, t <> [] -> find_val t (tree st) <> None -> sdim t <= dim_ub st.
+
+Lemma step_agree_prune_d fx st K d :
+  agree (tree st) K -> ub_valid st -> agree (tree (step fx st (OPruneD d))) (spec_step K (OPruneD d)).
+Proof.
+  intros [Hwf Ha] Hub. cbn [step spec_step].
+  assert (Hsd : forall t : simplex, t <> [] -> 0 <= sdim t).
+  { intros [|z t] Ht; [congruence|]. unfold sdim. cbn [length]. lia. }
+  destruct (dim_ub st <=? d) eqn:E1.
+  - split; auto. intros t Ht. rewrite spec_prune_dim_lookup, Ha by auto.
+    destruct (sdim t <=? Z.max d (-1)) eqn:E2; auto.
+    destruct (lookup K t) eqn:El; auto. exfalso.
+    assert (sdim t <= dim_ub st) by (apply Hub; auto; rewrite Ha by auto; congruence). lia.
+  - destruct (d <? 0) eqn:E2.
+    + assert (Hnone : forall t, t <> [] -> lookup (spec_prune_dim K (Z.max d (-1))) t = None).
+      { intros t Ht. rewrite spec_prune_dim_lookup. specialize (Hsd t Ht).
+        assert (sdim t <=? Z.max d (-1) = false) as -> by lia. reflexivity. }
+      destruct (is_nil (tree st)) eqn:En.
+      * split; auto. intros t Ht. rewrite Hnone by auto. destruct (tree st); [apply find_val_nil_l | discriminate].
+      * cbn [tree]. split; [apply wf_nil|]. intros t Ht. rewrite Hnone by auto. apply find_val_nil_l.
+    + change (kids (trunc (Node (tree st)) (Z.to_nat d))) with (kids (trunc (Node (tree st)) (Z.to_nat d))).
+      rewrite trunc_node. cbn [kids].
+      assert (Hfind : forall t, t <> [] ->
+                find_val t (trunc_sibs (tree st) (Z.to_nat d)) = lookup (spec_prune_dim K (Z.max d (-1))) t).
+      { intros t Ht. rewrite find_trunc, spec_prune_dim_lookup, Ha by auto.
+        unfold sdim. destruct (length t <=? S (Z.to_nat d))%nat eqn:E3; destruct (Z.of_nat (length t) - 1 <=? Z.max d (-1)) eqn:E4; auto; lia. }
+      destruct (size_t (Node (trunc_sibs (tree st) (Z.to_nat d))) =? size_t (Node (tree st))) eqn:E3.
+      * split; auto. intros t Ht. rewrite <- Hfind by auto.
+        destruct (trunc_size (tree st) (Z.to_nat d)) as [_ Hid]. rewrite Hid by lia. reflexivity.
+      * cbn [tree]. split; [apply wf_trunc; auto | auto].
+Qed.
+
+(* ------------------------------------------------------------------------------------------------ the cached dimension is an upper bound *)
+Lemma prefixb_length : forall p s, prefixb p s = true -> (length p <= length s)%nat.
+Proof.
+  induction p as [|x p IH]; intros [|y s] H; cbn [length]; try lia; try discriminate.
+  cbn [prefixb] in H. apply andb_true_iff in H as [_ H]. apply IH in H. lia.
+Qed.
+Lemma subseq_length : forall b a, subseq a b = true -> (length a <= length b)%nat.
+Proof.
+  induction b as [|y b IH]; intros a H.
+  - rewrite subseq_nil_r in H. destruct a; [cbn; lia | discriminate].
+  - destruct a as [|x a]; [cbn; lia|]. rewrite subseq_cons in H. destruct (x =? y).
+    + apply IH in H. cbn [length]. lia.
+    + apply IH in H. cbn [length] in *. lia.
+Qed.
+Lemma height_node_cons x w c r : height_t (Node ((x, w, c) :: r)) = Z.max (1 + height_t c) (height_t (Node r)).
+Proof. reflexivity. Qed.
+Lemma height_lb : forall t, -1 <= height_t t.
+Proof.
+  apply (trie_sibs_ind (fun t => -1 <= height_t t) (fun l => -1 <= height_t (Node l))); auto.
+  - cbn; lia.
+  - intros x w c r Hc Hr. rewrite height_node_cons. lia.
+Qed.
+Lemma get_height x : forall l w c, get x l = Some (w, c) -> 1 + height_t c <= height_t (Node l).
+Proof.
+  induction l as [|[[y w'] c'] r IH]; intros w c H; [discriminate|].
+  rewrite height_node_cons. cbn [get] in H. zcmp x y.
+  - inversion H; subst. lia.
+  - discriminate.
+  - specialize (IH _ _ H). lia.
+Qed.
+Theorem find_height : forall t l, find_val t l <> None -> sdim t <= height_t (Node l).
+Proof.
+  induction t as [|x [|y t'] IH]; intros l H.
+  - cbn in H. congruence.
+  - rewrite find_val_one in H. destruct (get x l) as [[w c]|] eqn:E; [|cbn in H; congruence].
+    apply get_height in E. pose proof (height_lb c). unfold sdim; cbn [length]. lia.
+  - rewrite find_val_deep in H. destruct (get x l) as [[w [c]]|] eqn:E; [|congruence].
+    apply get_height in E. specialize (IH c H). unfold sdim in *. cbn [length] in *. lia.
+Qed.
+
+Definition refined_op (o : op) : bool :=
+  match o with
+  | OInsert _ _ | OInsertSub _ _ | OBatch _ _ | ORemove _ | OPruneF _ | OPruneD _ | OClear | ODim => true
+  | _ => false
+  end.
+
+Lemma is_some_find_val t l : is_some (find t l) = is_some (find_val t l).
+Proof. unfold find_val. destruct (find t l); reflexivity. Qed.
+Lemma sdim_nonneg (t : simplex) : t <> [] -> 0 <= sdim t.
+Proof. destruct t; [congruence|]. intros _. unfold sdim. cbn [length]. lia. Qed.
+
+Lemma step_ub_valid fx st K o :
+  agree (tree st) K -> ub_valid st -> good K = true -> refined_op o = true -> pre_op K o = true ->
+  ub_valid (step fx st o).
+Proof.
+  intros [Hwf Ha] Hub Hg Hr Hpre. destruct o; try discriminate; cbn [step].
+  - (* insert_simplex *)
+    cbn [pre_op] in Hpre. apply andb_true_iff in Hpre as [Hpre _]. apply andb_true_iff in Hpre as [Hne _].
+    assert (Hs : norm s <> []) by (apply norm_nonnil; destruct s; [discriminate | congruence]).
+    set (ub' := if negb (is_some (find (norm s) (tree st))) && (dim_ub st <? sdim (norm s)) then sdim (norm s) else dim_ub st).
+    assert (H1 : dim_ub st <= ub' /\ sdim (norm s) <= ub').
+    { unfold ub'. rewrite is_some_find_val. destruct (find_val (norm s) (tree st)) eqn:E; cbn [is_some negb andb].
+      - split; [lia|]. apply Hub; auto. congruence.
+      - destruct (dim_ub st <? sdim (norm s)) eqn:E2; lia. }
+    intros t Ht. cbn [tree dim_ub]. fold ub'. rewrite find_ins_raw by auto.
+    destruct (seqb t (norm s)) eqn:E.
+    + apply seqb_eq in E; subst. lia.
+    + destruct (prefixb t (norm s)) eqn:Ep; cbn [andb].
+      * intros _. apply prefixb_length in Ep. unfold sdim in *. lia.
+      * intro H. specialize (Hub t Ht H). lia.
+  - (* insert_simplex_and_subfaces *)
+    destruct (norm s) as [|x r] eqn:En; auto.
+    rewrite <- En in *. assert (Hs : norm s <> []) by congruence.
+    intros t Ht. cbn [tree dim_ub].
+    pose proof (find_ins_sub (norm s) v (tree st) (norm_sorted s) Hs (good_exit_ok K _ _ _ Hg (conj Hwf Ha))) as [_ Hf].
+    rewrite Hf by auto. destruct (subseq t (norm s)) eqn:E.
+    + intros _. apply subseq_length in E. unfold sdim. lia.
+    + intro H. specialize (Hub t Ht H). lia.
+  - (* insert_batch_vertices *)
+    intros t Ht. cbn [tree dim_ub]. intro H.
+    assert (Hnn : is_nil (ins_batch vs v (tree st)) = false).
+    { destruct (ins_batch vs v (tree st)); auto. rewrite find_val_nil_l in H. congruence. }
+    rewrite Hnn. cbn [negb]. rewrite andb_true_r.
+    rewrite find_ins_batch in H by auto.
+    assert (Hcase : t = [hd 0 t] \/ find_val t (tree st) <> None).
+    { destruct t as [|z [|z' t']]; [congruence | left; reflexivity | right; exact H]. }
+    destruct Hcase as [Ht1|Hold].
+    + rewrite Ht1. unfold sdim; cbn [length]. destruct (dim_ub st <? 0) eqn:E; lia.
+    + specialize (Hub t Ht Hold). pose proof (sdim_nonneg t Ht). destruct (dim_ub st <? 0) eqn:E; lia.
+  - (* remove_maximal_simplex *)
+    cbn [pre_op] in Hpre. apply andb_true_iff in Hpre as [Hmem Hcof].
+    destruct (rm_max (norm s) (tree st) true) as [t0 e] eqn:Er.
+    assert (Ht0 : t0 = fst (rm_max (norm s) (tree st) true)) by (rewrite Er; reflexivity).
+    intros t Ht. cbn [tree dim_ub]. intro H.
+    assert (Hnn : is_nil t0 = false).
+    { destruct t0; auto. rewrite find_val_nil_l in H. congruence. }
+    rewrite Hnn, andb_false_r. subst t0.
+    destruct (norm s) as [|x r] eqn:En.
+    + cbn [rm_max fst] in H. apply Hub; auto.
+    + rewrite <- En in *. assert (Hs : norm s <> []) by congruence.
+      assert (Hin : find_val (norm s) (tree st) <> None).
+      { rewrite Ha by auto. unfold cmem in Hmem. destruct (lookup K (norm s)); [congruence | discriminate]. }
+      rewrite find_rm_max in H by auto. destruct (prefixb (norm s) t); [congruence|]. apply Hub; auto.
+  - (* prune_above_filtration *)
+    intros t Ht. cbn [tree dim_ub]. change (kids (prune_f f (Node (tree st)))) with (prune_sibs f (tree st)).
+    rewrite find_prune by auto. destruct (path_le f t (tree st)); [|congruence]. apply Hub; auto.
+  - (* prune_above_dimension *)
+    destruct (dim_ub st <=? d) eqn:E1; auto.
+    destruct (d <? 0) eqn:E2.
+    + destruct (is_nil (tree st)); auto. intros t Ht. cbn [tree]. rewrite find_val_nil_l. congruence.
+    + rewrite trunc_node. cbn [kids].
+      destruct (size_t (Node (trunc_sibs (tree st) (Z.to_nat d))) =? size_t (Node (tree st))); auto.
+      intros t Ht. cbn [tree dim_ub]. rewrite find_trunc by auto.
+      destruct (length t <=? S (Z.to_nat d))%nat eqn:E3; [|congruence]. intros _. unfold sdim. lia.
+  - (* clear *)
+    intros t Ht. cbn [tree]. rewrite find_val_nil_l. congruence.
+  - (* dimension() *)
+    unfold dimension. destruct (dirty st); cbn [fst]; auto.
+    intros t Ht. cbn [lower_ub tree dim_ub]. intro H. specialize (Hub t Ht H).
+    pose proof (find_height t (tree st) H). unfold exact_dim. destruct (dim_ub st <=? height_t (Node (tree st))); lia.
+Qed.
+
+Definition inv (st : state) (K : cplx) : Prop := agree (tree st) K /\ ub_valid st.
+
+Lemma step_inv fx st K o :
+  inv st K -> good K = true -> refined_op o = true -> pre_op K o = true -> good (spec_step K o) = true ->
+  inv (step fx st o) (spec_step K o).
+Proof.
+  intros [Ha Hub] Hg Hr Hpre Hg'. split; [|eapply step_ub_valid; eauto].
+  destruct o; try discriminate.
+  - apply step_agree; auto.
+  - apply step_agree; auto.
+  - apply step_agree; auto.
+  - apply step_agree; auto.
+  - apply step_agree_prune_f; auto.
+  - apply step_agree_prune_d; auto.
+  - apply step_agree; auto.
+  - apply step_agree; auto.
+Qed.
+
+Lemma run_inv fx : forall ops st K,
+  inv st K -> good K = true -> forallb refined_op ops = true -> ok_from K ops = true ->
+  inv (fold_left (step fx) ops st) (fold_left spec_step ops K).
+Proof.
+  induction ops as [|o ops IH]; intros st K Ha Hg Hp Hok; cbn [fold_left]; auto.
+  cbn [forallb] in Hp. apply andb_true_iff in Hp as [Hp1 Hp2].
+  cbn [ok_from] in Hok. apply andb_true_iff in Hok as [Hok Hok3]. apply andb_true_iff in Hok as [Hok1 Hok2].
+  apply IH; auto. apply step_inv; auto.
+Qed.
+
+(* insertions (alone / with all faces), batch vertices, maximal-simplex removals, both prunings, clear, dimension():
+   after any history that respects the documented preconditions the tree is well formed, holds exactly the
+   specification's finite map, and the cached dimension bounds the dimension of every stored simplex *)
+Theorem history_refines fx ops :
+  forallb refined_op ops = true -> ok_history ops = true ->
+  wf (tree (run fx ops)) /\
+  (forall t, t <> [] -> find_val t (tree (run fx ops)) = lookup (spec_run ops) t) /\
+  (forall t, t <> [] -> lookup (spec_run ops) t <> None -> sdim t <= dim_ub (run fx ops)).
+Proof.
+  intros Hp Hok.
+  assert (H0 : inv empty_state []).
+  { split; [split; [apply wf_nil|] |]; intros t _; cbn [tree empty_state]; rewrite find_val_nil_l; [reflexivity | congruence]. }
+  destruct (run_inv fx ops empty_state [] H0 eq_refl Hp Hok) as [[Hwf Ha] Hub].
+  split; [exact Hwf|]. split; [exact Ha|]. intros t Ht Hl. apply Hub; auto. unfold run. rewrite Ha by auto. exact Hl.
+Qed.
